@@ -18,6 +18,8 @@ import (
 	"time"
 
 	"github.com/andres-erbsen/clock"
+
+	"github.com/uber/kraken/utils/verifhook"
 )
 
 // TaskGCInterval is the interval in which garbage collection of old tasks runs.
@@ -87,6 +89,7 @@ func (l *Limiter) Run(input interface{}) interface{} {
 		}
 		l.Unlock()
 	}
+	verifhook.PointV("dedup.limiter.before_getoutput", input)
 	return l.getOutput(t)
 }
 
